@@ -146,12 +146,13 @@ def edgeNeiOverlap (A : AMat Int n) : Except MErr (AMat XRat n) :=
   if fany fun i => fany fun j => A.get i j != 0 && union.get i j == 0 then .error .zeroDiv
   else .ok (AMat.ofFn fun i j => if A.get i j ≠ 0 then .fin ((inter.get i j : Rat) / (union.get i j : Rat)) else .pinf)
 
-/-- `gtom`: one in-place update of node `i` (`bm_aux[i, new] = 1; bm_aux[new, i] = 1`) -/
-def gtomNode (B : AMat Int n) (i : Fin n) : AMat Int n :=
-  let new : Vector Bool n := Vector.ofFn fun c => c != i && fany fun r => B.get i r == 1 && B.get r c == 1
-  AMat.ofFn fun r c => if (r = i ∧ (vget new c)) ∨ (c = i ∧ (vget new r)) then 1 else B.get r c
+/-- `gtom`: one round of neighbourhood expansion.  Every node `i` is expanded from the matrix at the start of the round
+(`bm_prev`): `new_i = {c ≠ i : ∃ r, bm_prev[i,r] = 1 ∧ bm_prev[r,c] = 1}`, then `bm_aux[i, new_i] = 1; bm_aux[new_i, i] = 1`.
+All writes set cells to 1, so after the loop cell `(r, c)` is 1 iff it was 1 or `c ∈ new_r` or `r ∈ new_c`. -/
+def gtomNew (B : AMat Int n) (i c : Fin n) : Bool := c != i && fany fun r => B.get i r == 1 && B.get r c == 1
 
-def gtomSweep (B : AMat Int n) : AMat Int n := (List.finRange n).foldl gtomNode B
+def gtomSweep (B : AMat Int n) : AMat Int n :=
+  AMat.ofFn fun r c => if gtomNew B r c || gtomNew B c r then 1 else B.get r c
 
 def gtomAux (bm : AMat Int n) : Nat → AMat Int n
   | 0 => bm
